@@ -198,6 +198,11 @@ theorem boolOrErr_vTest (v : Val) : BoolOrErr (vTest v) := by
 theorem boolOrErr_vNot (v : Val) : BoolOrErr (vNot v) := by
   cases v <;> simp [vNot, BoolOrErr]
 
+theorem plain_of_boe {v : Val} (h : BoolOrErr v) : Plain v := by
+  rcases h with ⟨b, rfl⟩ | ⟨k, rfl⟩
+  · exact plain_bool _
+  · exact plain_err _
+
 /-- Does `JMPCOND wf` jump on the popped value. -/
 def jumps (wf : Bool) : Val → Bool
   | .bool b => b == wf
@@ -545,6 +550,138 @@ theorem runAt_of_runs (hnp : NoProgs env) (b : Nat) {code : List Instr} {v : Val
   simp only [runAt, hg, loop_end]
   exact finish_resolve hnp w log
 
+/-! ### `match` -/
+
+/-- No parameter is bound to an identifier value (so a popped value is never resolved a second time). -/
+def PlainParams (env : Env) : Prop := ∀ n v, env.getParam n = some v → Plain v
+
+theorem plain_getType {n : Str} {t : Val} (h : env.getType n = some t) : Plain t := by
+  unfold Env.getType typeByName at h
+  split at h
+  · rw [Option.map_eq_some_iff] at h
+    obtain ⟨_, _, rfl⟩ := h
+    intro _ hh; cases hh
+  · cases h
+
+theorem plain_resolve (hpp : PlainParams env) (w : Val) : Plain (resolve env w) := by
+  cases w
+  case ident n =>
+    simp only [resolve, resolveIdent]
+    split
+    · rename_i t ht; exact plain_getType ht
+    · split
+      · rename_i v hv; exact hpp n v hv
+      · exact plain_err _
+  all_goals (intro _ hh; cases hh)
+
+/-- Is a pattern result "matched". -/
+def isTrue : Val → Bool
+  | .bool true => true
+  | _ => false
+
+/-- Value of a `match` given, per case, the pattern result and the value of the arm. -/
+def matchVal : List (Val × Val) → Val
+  | [] => .null
+  | (r, a) :: rest => if isTrue r then a else matchVal rest
+
+theorem jumps_false_iff {r : Val} (h : BoolOrErr r) : jumps false r = !isTrue r := by
+  rcases h with ⟨b, rfl⟩ | ⟨k, rfl⟩
+  · cases b <;> rfl
+  · rfl
+
+/-- The cases after the scrutinee: started with the scrutinee on the stack, exactly the arm of the first
+    case whose pattern yields `true` runs; with no such case the result is `null`. -/
+theorem go_matchTail (hnp : NoProgs env) {v : Val} (hv : Plain v)
+    (cs : List ((List Instr × List Instr) × (Val × Val)))
+    (hcs : ∀ c ∈ cs, BoolOrErr c.2.1 ∧
+      (∃ k, k ≤ c.1.1.length ∧ Go B rec top env c.1.1 k 0 [.val v] c.1.1.length [.val c.2.1]) ∧
+      Runs B rec top env c.1.2 c.2.2) :
+    ∀ w0, resolve env w0 = v → ∃ w' k, resolve env w' = matchVal (cs.map (·.2)) ∧
+      k ≤ (matchTail (cs.map (·.1))).length ∧
+      Go B rec top env (matchTail (cs.map (·.1))) k 0 [.val w0] (matchTail (cs.map (·.1))).length [.val w'] := by
+  induction cs with
+  | nil =>
+    intro w0 _
+    refine ⟨.null, 2, rfl, by simp [matchTail], ?_⟩
+    have g1 := go_pop (B := B) (rec := rec) (top := top) hnp w0 [.push .null]
+    have g2 := (go_push (B := B) (rec := rec) (top := top) (env := env) .null []).skip_cons .pop
+    simpa [matchTail] using g1.trans g2
+  | cons c cs ih =>
+    obtain ⟨⟨p, e⟩, ⟨r, a⟩⟩ := c
+    intro w0 hw0
+    have ih' := ih (fun q hq => hcs q (List.mem_cons_of_mem _ hq))
+    obtain ⟨hr, ⟨kp, hkp, gp⟩, ⟨wa, ka, hwa, hka, ga⟩⟩ := hcs ((p, e), (r, a)) (List.mem_cons_self ..)
+    dsimp only at hr hkp gp hwa hka ga
+    simp only [List.map_cons, matchTail, matchVal]
+    generalize matchTail (cs.map (·.1)) = T at ih' ⊢
+    have hcode : [Instr.dup] ++ p ++ [.jmpCond false (↑e.length + 2), .pop] ++ e ++ [.jmp ↑T.length] ++ T =
+        .dup :: (p ++ (.jmpCond false (↑e.length + 2) :: .pop :: (e ++ (.jmp ↑T.length :: T)))) := by simp
+    rw [hcode]
+    generalize hd1 : ((↑e.length + 2 : Int)) = d1
+    generalize hd2 : ((↑T.length : Int)) = d2
+    have hrr := resolve_plain (env := env) (plain_of_boe hr)
+    have g1 := go_dup (B := B) (rec := rec) (top := top) hnp w0 (p ++ (.jmpCond false d1 :: .pop :: (e ++ (.jmp d2 :: T))))
+    rw [hw0] at g1
+    have g2 := ((gp.head_app (.jmpCond false d1 :: .pop :: (e ++ (.jmp d2 :: T)))).skip_cons .dup).frame [.val v]
+    have g3 := (((go_jmpCond (B := B) (rec := rec) (top := top) hnp (wf := false) (d := d1) (n := e.length + 2) (by omega)
+      (r := .pop :: (e ++ (.jmp d2 :: T))) (by simp <;> omega) r (by rw [hrr]; exact hr)).skip_app p).skip_cons
+      .dup).frame [.val v]
+    rw [hrr, jumps_false_iff hr] at g3
+    have g123 := (g1.trans g2).trans (g3.cast rfl (by omega) rfl)
+    cases hm : isTrue r
+    · -- no match: on to the next case with the scrutinee still on the stack
+      obtain ⟨w', k', hw', hk', gT⟩ := ih' v (resolve_plain hv)
+      rw [hm] at g123
+      simp only [Bool.not_false, if_true] at g123
+      refine ⟨w', 1 + kp + 1 + k', by simpa using hw', by simp <;> omega, ?_⟩
+      have g4 := ((((gT.skip_cons (.jmp d2)).skip_app e).skip_cons .pop).skip_cons (.jmpCond false d1)).skip_app p
+        |>.skip_cons .dup
+      exact (g123.trans (g4.cast rfl (by omega) rfl)).cast rfl rfl (by simp <;> omega)
+    · -- match: POP the scrutinee, run the arm, jump over the remaining cases
+      rw [hm] at g123
+      simp only [Bool.not_true] at g123
+      refine ⟨wa, 1 + kp + 1 + 1 + ka + 1, by simpa using hwa, by simp <;> omega, ?_⟩
+      have g4 := (((go_pop (B := B) (rec := rec) (top := top) hnp v (e ++ (.jmp d2 :: T))).skip_cons (.jmpCond false d1)).skip_app p).skip_cons .dup
+      have g5 := ((((ga.head_app (.jmp d2 :: T)).skip_cons .pop).skip_cons (.jmpCond false d1)).skip_app p).skip_cons .dup
+      have g6 := ((((((go_jmp (B := B) (rec := rec) (top := top) (env := env) (d := d2) (n := T.length) (by omega)
+        (r := T) (Nat.le_refl _)).skip_app e).skip_cons .pop).skip_cons (.jmpCond false d1)).skip_app p).skip_cons
+        .dup).frame [.val wa]
+      exact (((g123.trans (g4.cast rfl (by simp <;> omega) rfl)).trans (g5.cast rfl (by omega) rfl)).trans
+        (g6.cast rfl (by omega) rfl)).cast (by omega) rfl (by simp <;> omega)
+
+/-- `s; matchTail cases`. -/
+theorem runs_match (hnp : NoProgs env) {s : List Instr} {v : Val} (hs : Runs B rec top env s v) (hv : Plain v)
+    (cs : List ((List Instr × List Instr) × (Val × Val)))
+    (hcs : ∀ c ∈ cs, BoolOrErr c.2.1 ∧
+      (∃ k, k ≤ c.1.1.length ∧ Go B rec top env c.1.1 k 0 [.val v] c.1.1.length [.val c.2.1]) ∧
+      Runs B rec top env c.1.2 c.2.2) :
+    Runs B rec top env (s ++ matchTail (cs.map (·.1))) (matchVal (cs.map (·.2))) := by
+  obtain ⟨w0, k0, hw0, hk0, g0⟩ := hs
+  obtain ⟨w', k', hw', hk', gT⟩ := go_matchTail hnp hv cs hcs w0 hw0
+  refine ⟨w', k0 + k', hw', by simp <;> omega, ?_⟩
+  have g1 := g0.head_app (matchTail (cs.map (·.1)))
+  have g2 := gT.skip_app s
+  exact (g1.trans (g2.cast rfl (by omega) rfl)).cast rfl rfl (by simp)
+
+/-- The pattern `_`: `POP; PUSH true`. -/
+theorem go_pat_any (hnp : NoProgs env) (v : Val) :
+    ∃ k, k ≤ [Instr.pop, .push (.bool true)].length ∧
+      Go B rec top env [.pop, .push (.bool true)] k 0 [.val v] [Instr.pop, .push (.bool true)].length [.val (.bool true)] :=
+  ⟨2, by simp, (go_pop (B := B) (rec := rec) (top := top) hnp v [.push (.bool true)]).trans
+    ((go_push (B := B) (rec := rec) (top := top) (env := env) (.bool true) []).skip_cons .pop)⟩
+
+/-- A comparison pattern `op e`: `e; OP` on top of the copy of the scrutinee. -/
+theorem go_pat_cmp (hnp : NoProgs env) {i : Instr} {f : Val → Val → Val}
+    (hi : ∀ len pc s, step B rec top env len i pc s = liftNext pc (binop rec f env s))
+    {v : Val} (hv : Plain v) {e : List Instr} {ve : Val} (he : Runs B rec top env e ve) :
+    ∃ k, k ≤ (e ++ [i]).length ∧ Go B rec top env (e ++ [i]) k 0 [.val v] (e ++ [i]).length [.val (f v ve)] := by
+  obtain ⟨we, ke, rfl, hke, ge⟩ := he
+  refine ⟨ke + 1, by simp <;> omega, ?_⟩
+  have g1 := (ge.head_app [i]).frame [.val v]
+  have g2 := (go_binop (B := B) (rec := rec) (top := top) hnp hi v we []).skip_app e
+  rw [resolve_plain hv] at g2
+  exact (g1.trans (g2.cast rfl (by omega) rfl)).cast rfl rfl (by simp)
+
 end
 
 /-! ### results of the binary operators are never identifiers -/
@@ -573,11 +710,6 @@ theorem boe_valEq (a b : Val) : BoolOrErr (valEq a b) := by
   · exact Or.inl ⟨_, rfl⟩
   · exact Or.inr ⟨_, rfl⟩
   · exact boe_eqScalar _ _
-
-theorem plain_of_boe {v : Val} (h : BoolOrErr v) : Plain v := by
-  rcases h with ⟨b, rfl⟩ | ⟨k, rfl⟩
-  · exact plain_bool _
-  · exact plain_err _
 
 theorem plain_valNe (a b : Val) : Plain (valNe a b) := by
   unfold valNe
